@@ -29,13 +29,15 @@ from funsor.util import quote
 
 
 def _partition(terms, sum_vars):
-    # Construct a bipartite graph between terms and the vars
-    neighbors = OrderedDict([(t, []) for t in terms])
-    for term in terms:
-        for dim in term.inputs.keys():
+    # Construct a bipartite graph between terms and the vars.
+    # Terms are keyed by position, since the same term may be listed more than once.
+    nodes = list(enumerate(terms))
+    neighbors = OrderedDict([(node, []) for node in nodes])
+    for node in nodes:
+        for dim in node[1].inputs.keys():
             if dim in sum_vars:
-                neighbors[term].append(dim)
-                neighbors.setdefault(dim, []).append(term)
+                neighbors[node].append(dim)
+                neighbors.setdefault(dim, []).append(node)
 
     # Partition the bipartite graph into connected components for contraction.
     components = []
@@ -52,10 +54,10 @@ def _partition(terms, sum_vars):
                     pending.append(v)
 
         # Split this connected component into tensors and dims.
-        component_terms = tuple(v for v in component if isinstance(v, Funsor))
+        component_terms = tuple(v[1] for v in component if isinstance(v, tuple))
         if component_terms:
             component_dims = frozenset(
-                v for v in component if not isinstance(v, Funsor)
+                v for v in component if not isinstance(v, tuple)
             )
             components.append((component_terms, component_dims))
     return components
